@@ -498,6 +498,12 @@ func genCase(r *gen.Rand, idx int, extra bool) *Case {
 	}
 	w := newWorld(name, !extra, r.Range(1, 3), r.Chance(2, 3), r.Chance(1, 5))
 	n := r.Range(8, 26)
+	// profiles: 0 long sequence, 1 snapshot/restore after every command, 2 two-phase drops (mark, then drop) of databases and
+	// policies with work in between, 3 node joins / removals / expansions interleaved with group creation and pruning
+	profile := r.Intn(12)
+	if profile == 0 {
+		n = r.Range(40, 60)
+	}
 	if r.Chance(5, 6) { // warm-up: a node, a database with a policy, a measurement
 		w.exec(Cmd{K: "cnode", H: 1, T: 1})
 		c := Cmd{K: "cdb", DB: r.Range(1, 3), HasRP: true, RP: r.Range(1, 3)}
@@ -507,7 +513,13 @@ func genCase(r *gen.Rand, idx int, extra bool) *Case {
 	}
 	for i := 0; i < n; i++ {
 		c := genCmd(r, w, extra)
+		if alt, ok := profileCmd(r, w, profile); ok {
+			c = alt
+		}
 		res := w.exec(c)
+		if profile == 1 && res != 2 && c.K != "restore" {
+			w.exec(Cmd{K: "restore"})
+		}
 		if res == 0 && c.X == "rename" && staleKey(w) {
 			break // a stale map key makes every later lookup of that policy diverge: one finding per case
 		}
@@ -533,6 +545,66 @@ func staleKey(w *World) bool {
 		}
 	}
 	return false
+}
+
+// profileCmd replaces some of the generated commands by the ones a profile concentrates on
+func profileCmd(r *gen.Rand, w *World, profile int) (Cmd, bool) {
+	d := w.prev
+	switch profile {
+	case 2: // two-phase drops
+		if !r.Chance(1, 3) {
+			return Cmd{}, false
+		}
+		for _, db := range d.DBs {
+			if db.Mark && r.Chance(1, 2) {
+				return Cmd{K: "dropdb", DB: code(db.Key)}, true
+			}
+			for _, rp := range db.RPs {
+				if rp.Mark && r.Chance(1, 2) {
+					return Cmd{K: "droprp", DB: code(db.Key), RP: code(rp.Key)}, true
+				}
+			}
+		}
+		if len(d.DBs) > 0 {
+			db := gen.Pick(r, d.DBs)
+			if len(db.RPs) > 0 && r.Chance(2, 3) {
+				return Cmd{K: "markrp", DB: code(db.Key), RP: code(gen.Pick(r, db.RPs).Key)}, true
+			}
+			return Cmd{K: "markdb", DB: code(db.Key)}, true
+		}
+	case 3: // nodes and expansions
+		if !r.Chance(2, 5) {
+			return Cmd{}, false
+		}
+		switch r.Intn(5) {
+		case 0:
+			h := r.Range(1, 6)
+			return Cmd{K: "cnode", H: h, T: h}, true
+		case 1:
+			if len(d.Nodes) > 1 {
+				return Cmd{K: "rmnode", ID: gen.Pick(r, d.Nodes).ID}, true
+			}
+		case 2:
+			return Cmd{K: "expand"}, true
+		case 3:
+			var shards []uint64
+			for _, db := range d.DBs {
+				for _, rp := range db.RPs {
+					for _, g := range rp.SGs {
+						if g.Deleted {
+							for _, s := range g.Shards {
+								shards = append(shards, s.ID)
+							}
+						}
+					}
+				}
+			}
+			if len(shards) > 0 {
+				return Cmd{K: "prunesg", ID: gen.Pick(r, shards)}, true
+			}
+		}
+	}
+	return Cmd{}, false
 }
 
 func finish(w *World) *Case {
